@@ -8,6 +8,7 @@ import numpy as np
 
 import sigpy as sp
 from sigpy import backend, util
+from sigpy import _verif  # noqa: I001
 
 
 class Alg(object):
@@ -62,14 +63,20 @@ class Alg(object):
 
         Call the user-defined _update() function and increment iter.
         """
+        if _verif.ON:
+            _verif.alg_update_begin(self)
         self._update()
         self.iter += 1
+        if _verif.ON:
+            _verif.alg_update_end(self)
 
     def done(self):
         """Return whether the algorithm is done.
 
         Call the user-defined _done() function.
         """
+        if _verif.ON:
+            return _verif.alg_done(self, self._done())
         return self._done()
 
 
